@@ -113,14 +113,29 @@ def handle : List String → String
       outcomeStr t.out ++ " " ++ toString t.last ++ " " ++ encLists (t.sent.map hopBytes)
         ++ " " ++ toString t.followUps ++ " " ++ toString t.authRetries
     | none => "bad-arg"
-  | "crawl" :: tries :: rejectAt :: rest =>
-    -- rejectAt: global indices (over all visits) of the requests-sent count at which the filters said no
-    match tries.toNat?, decList? rejectAt, decSession? rest with
-    | some tries, some rej, some a =>
-      let visits := crawlOne tries a.cfg a.req (a.script.length + 2) a.script ⟨.todo, 0⟩ rej 0
-      if visits.isEmpty then "-" else
-      ",".intercalate (visits.map (fun (n, rec) => toString n ++ ":" ++ statusStr rec.status ++ ":" ++ toString rec.tryCount))
+  | "crawl" :: tries :: rejectAt :: robots :: nrob :: rest =>
+    -- rejectAt: global page-request counts at which the filters said no;
+    -- robots: "off" | "allow" | "disallow" (what a 200 body says); then nrob robots.txt replies (2 tokens each)
+    match tries.toNat?, decList? rejectAt, nrob.toNat? with
+    | some tries, some rej, some nrob =>
+      match decReplies? (rest.take (2 * nrob)), decSession? (rest.drop (2 * nrob)) with
+      | some rscript, some a =>
+        let pool : Option Bool := if robots == "off" then some true else none
+        let visits := crawlOne tries a.cfg a.req (robots == "disallow") (a.script.length + rscript.length + 3)
+          a.script rscript ⟨.todo, 0⟩ pool rej 0
+        if visits.isEmpty then "-" else
+        ",".intercalate (visits.map (fun v => toString v.requests ++ ":" ++ toString v.robotsRequests ++ ":"
+          ++ statusStr v.record.status ++ ":" ++ toString v.record.tryCount))
+      | _, _ => "bad-arg"
     | _, _, _ => "bad-arg"
+  | ["prep2", full1, full2, method, version, fields, url] =>
+    match decList? method, decList? version, decFields? fields, decUrl? url with
+    | some method, some version, some fields, some u =>
+      let r : Req := { method, resourcePath := urlStr u, version, fields, url := u, username := [], password := [] }
+      match toBytes (prepareForSend (prepareForSend r (full1 == "T")) (full2 == "T")) with
+      | .ok b => "ok " ++ encList b
+      | .error e => "exc " ++ e.name
+    | _, _, _, _ => "bad-arg"
   | _ => "bad-op"
 
 end Wpull.Request
